@@ -193,14 +193,18 @@ type NotConditions struct {
 
 func (not NotConditions) Build(builder Builder) {
 	anyNegationBuilder := false
-	for _, c := range not.Exprs {
+	combinedWithOr := false
+	for idx, c := range not.Exprs {
 		if _, ok := c.(NegationExpressionBuilder); ok {
 			anyNegationBuilder = true
-			break
+		}
+		if v, ok := c.(OrConditions); ok && idx > 0 && len(v.Exprs) == 1 {
+			combinedWithOr = true
 		}
 	}
 
-	if anyNegationBuilder {
+	if anyNegationBuilder && !combinedWithOr {
+		// every condition is negated on its own: name <> ? AND age <> ?
 		if len(not.Exprs) > 1 {
 			builder.WriteByte('(')
 		}
@@ -214,16 +218,7 @@ func (not NotConditions) Build(builder Builder) {
 				negationBuilder.NegationBuild(builder)
 			} else {
 				builder.WriteString("NOT ")
-				wrapInParentheses := needsParentheses(c)
-				if wrapInParentheses {
-					builder.WriteByte('(')
-				}
-
-				c.Build(builder)
-
-				if wrapInParentheses {
-					builder.WriteByte(')')
-				}
+				buildWrapped(c, builder)
 			}
 		}
 
@@ -231,35 +226,38 @@ func (not NotConditions) Build(builder Builder) {
 			builder.WriteByte(')')
 		}
 	} else {
+		// the conditions are negated as a whole
 		builder.WriteString("NOT ")
 		if len(not.Exprs) > 1 {
 			builder.WriteByte('(')
-		}
-
-		for idx, c := range not.Exprs {
-			if idx > 0 {
-				switch c.(type) {
-				case OrConditions:
-					builder.WriteString(OrWithSpace)
-				default:
-					builder.WriteString(AndWithSpace)
-				}
-			}
-
-			wrapInParentheses := needsParentheses(c)
-			if wrapInParentheses {
-				builder.WriteByte('(')
-			}
-
-			c.Build(builder)
-
-			if wrapInParentheses {
-				builder.WriteByte(')')
-			}
-		}
-
-		if len(not.Exprs) > 1 {
+			buildExprs(not.Exprs, builder, AndWithSpace)
 			builder.WriteByte(')')
+		} else if len(not.Exprs) == 1 {
+			buildWrapped(not.Exprs[0], builder)
 		}
+	}
+}
+
+// buildWrapped builds a single condition, in parentheses when it is raw SQL
+// containing AND/OR, also when that raw SQL is the only member of an And/Or.
+func buildWrapped(c Expression, builder Builder) {
+	wrapInParentheses := needsParentheses(c)
+	switch v := c.(type) {
+	case OrConditions:
+		if len(v.Exprs) == 1 {
+			wrapInParentheses = needsParentheses(v.Exprs[0])
+		}
+	case AndConditions:
+		if len(v.Exprs) == 1 {
+			wrapInParentheses = needsParentheses(v.Exprs[0])
+		}
+	}
+
+	if wrapInParentheses {
+		builder.WriteByte('(')
+		c.Build(builder)
+		builder.WriteByte(')')
+	} else {
+		c.Build(builder)
 	}
 }
